@@ -283,7 +283,7 @@ func (vc *VC) loopHead(fr *Frame, li *loopInfo, cur *State, ins []edgeState) *St
 		t, err := vc.evalInv(fr, cur, inv)
 		if err != nil {
 			vc.unsupported("invariant %q: %v", inv.src, err)
-			continue
+			t = "false"
 		}
 		vc.oblige(cur, "invariant", fmt.Sprintf("%s#inv.loop%d.entry.%d", funcKey(fn), li.ordinal, i+1), "loop invariant on entry: "+inv.src, pos, t)
 	}
@@ -865,7 +865,7 @@ func (vc *VC) flow(fr *Frame, from, to *ssa.BasicBlock, st *State, in map[*ssa.B
 			t, err := vc.evalInv(fr, st, inv)
 			if err != nil {
 				vc.unsupported("invariant %q: %v", inv.src, err)
-				continue
+				t = "false"
 			}
 			vc.oblige(st, "invariant", fmt.Sprintf("%s#inv.loop%d.preserved.%d", funcKey(fr.fn), li.ordinal, i+1), "loop invariant preserved: "+inv.src, pos, t)
 		}
@@ -1338,6 +1338,9 @@ func (vc *VC) inlineAsserts(fr *Frame, st *State, ins ssa.Instruction, fired map
 		t := env.evalBool(cl.Expr)
 		if env.err != nil {
 			vc.unsupported("%s at %q: %v", cl.Kind, cl.Match, env.err)
+			if cl.Kind == "assert" {
+				vc.oblige(st, "assert", fmt.Sprintf("%s#assert%d", funcKey(fr.fn), i+1), "assertion cannot be evaluated ("+env.err.Error()+"): "+cl.Src, pos, "false")
+			}
 			continue
 		}
 		if cl.Kind == "assert" {
